@@ -265,6 +265,8 @@ def run(ctx):
     r6_same_sectioning(ctx, F)
     r7_sections_by_time_only(ctx, F)
     r8_skills_fed_alike(ctx, F)
+    from props import C02 as _c02
+    _c02.r9_strains_pair(ctx, F, 'C16-R9')
     # ---- R5: strains() and difficulty() consult the same Difficulty settings
     import entries
     for mode in MODES:
